@@ -72,19 +72,123 @@ def extract(ctx):
     return sliced, fired
 
 
+TDC = 'src/tbb/task_dispatcher.cpp'
+TDH = 'src/tbb/task_dispatcher.h'
+
+
+def extract_switch(ctx, sliced, fired):
+    """the stack-switch discipline: whatever runs first on a stack after a switch performs the post-resume action the previous stack left behind, exactly once"""
+    rw = Rewriter('stack_switch')
+    out = []
+    # do_post_resume_action
+    s = slice_block(TK, r'void task_dispatcher::do_post_resume_action\(\)')
+    sliced.append('%s:%d task_dispatcher::do_post_resume_action' % (TK, s.line))
+    t = rw.sub(s.text, r'void task_dispatcher::do_post_resume_action\(\)', 'void td_do_post_resume_action(struct task_dispatcher* self)', 1, 1, name='sig')
+    t = rw.sub(t, r'thread_data\* td = m_thread_data;', 'struct thread_data* td = self->m_thread_data;', 1, 1, name='field')
+    t = rw.sub(t, r'case post_resume_action::(\w+):', r'case pra_\1:', 3, name='enum-class')
+    t = rw.sub(t, r'post_resume_action::(\w+)', r'pra_\1', 0, name='enum-class')
+    t = rw.sub(t, r'static_cast<thread_control_monitor::resume_context\*>\(td->my_post_resume_arg\)->notify\(\);', 'STUB_resume_context_notify(td->my_post_resume_arg);', 0, None, name='callee stub (re-registers the abandoned stack as a waiter)')
+    t = rw.sub(t, r'task_dispatcher\* to_cleanup = static_cast<task_dispatcher\*>\(td->my_post_resume_arg\);', 'struct task_dispatcher* to_cleanup = (struct task_dispatcher*)td->my_post_resume_arg;', 0, None, name='cast')
+    t = rw.sub(t, r'td->my_arena->on_thread_leaving\(arena::ref_external\);', 'STUB_arena_unref_external(td);', 0, None, name='callee stub')
+    t = rw.sub(t, r'td->my_arena->my_co_cache\.push\(to_cleanup\);', 'STUB_co_cache_push(td, to_cleanup);', 0, None, name='callee stub')
+    t = rw.sub(t, r'suspend_point_type\* sp = static_cast<suspend_point_type\*>\(td->my_post_resume_arg\);', 'struct sp* sp = (struct sp*)td->my_post_resume_arg;', 0, None, name='cast')
+    t = rw.sub(t, r'sp->recall_owner\(\);', 'STUB_sp_recall_owner(sp);', 0, None, name='callee (proved: handshake.recall_owner)')
+    t = rw.sub(t, r'(?s)auto is_our_suspend_point = \[sp\] \(market_context ctx\) \{.*?\};', 'RG_NOP();', 0, None, name='lambda (predicate selecting the waiters of this suspend point) -> argument of the stub below')
+    t = rw.sub(t, r'td->my_arena->get_waiting_threads_monitor\(\)\.notify\(is_our_suspend_point\);', 'STUB_notify_waiters_of(td, sp);', 0, None, name='callee stub')
+    t = rw.sub(t, r'td->clear_post_resume_action\(\);', 'td_clear_post_resume_action(td);', 0, None, name='method')
+    t = rw.asserts(t, 0)
+    t = rw.std(t)
+    out.append(t)
+    # thread_data::set/clear_post_resume_action
+    for name, sig, csig in (('set_post_resume_action', r'void set_post_resume_action\(task_dispatcher::post_resume_action pra, void\* arg\)', 'void td_set_post_resume_action(struct thread_data* self, int pra, void* arg)'),
+                            ('clear_post_resume_action', r'void clear_post_resume_action\(\)', 'void td_clear_post_resume_action(struct thread_data* self)')):
+        s = slice_block('src/tbb/thread_data.h', sig)
+        sliced.append('src/tbb/thread_data.h:%d thread_data::%s' % (s.line, name))
+        t = rw.sub(s.text, sig, csig, 1, 1, name='sig')
+        t = rw.sub(t, r'task_dispatcher::post_resume_action::(\w+)', r'pra_\1', 0, name='enum-class')
+        t = rw.sub(t, r'(?<![\w.>])(my_post_resume_action|my_post_resume_arg)\b', r'self->\1', 2, name='field')
+        t = rw.asserts(t, 0)
+        t = rw.std(t)
+        out.insert(0, t)
+    # co_local_wait_for_all (member)
+    s = slice_block(TDC, r'void task_dispatcher::co_local_wait_for_all\(\) noexcept')
+    sliced.append('%s:%d task_dispatcher::co_local_wait_for_all' % (TDC, s.line))
+    t = rw.sub(s.text, r'void task_dispatcher::co_local_wait_for_all\(\) noexcept', 'void td_co_local_wait_for_all(struct task_dispatcher* self)', 1, 1, name='sig')
+    t = rw.sub(t, r'assert_pointer_valid\(m_thread_data\);', 'RG_NOP();', 0, None, name='debug check -> RG_NOP')
+    t = rw.sub(t, r'assert_task_valid\(resume_task\);', 'RG_NOP();', 0, None, name='debug check -> RG_NOP')
+    t = rw.sub(t, r'm_suspend_point->finilize_resume\(\);', 'STUB_sp_finilize_resume(self->m_suspend_point);', 0, None, name='callee (proved: handshake.leaver)')
+    t = rw.sub(t, r'(?<![\w.>:])do_post_resume_action\(\);', 'td_do_post_resume_action(self);', 0, None, name='method')
+    t = rw.sub(t, r'd1::task\* resume_task\{\};', 'task* resume_task = NULL;', 1, 1, name='brace-init')
+    t = rw.sub(t, r'arena\* a = m_thread_data->my_arena;', 'RG_NOP();', 0, None, name='local alias dropped')
+    t = rw.sub(t, r'coroutine_waiter waiter\(\*a\);', 'RG_NOP();', 0, None, name='waiter object -> argument of the stub below')
+    t = rw.sub(t, r'resume_task = local_wait_for_all\(nullptr, waiter\);', 'resume_task = STUB_local_wait_for_all(self);', 1, 1, name='callee stub (the dispatch loop)')
+    t = rw.sub(t, r'm_thread_data->set_post_resume_action\(post_resume_action::(\w+), ([^;]*)\);', r'td_set_post_resume_action(self->m_thread_data, pra_\1, \2);', 0, None, name='method')
+    t = rw.sub(t, r'\bthis\b', 'self', 0, None, name='this')
+    t = rw.sub(t, r'resume\(static_cast<suspend_point_type::resume_task\*>\(resume_task\)->m_target\)', 'STUB_switch_to_target_of(self, resume_task)', 1, 1, name='callee stub (task_dispatcher::resume: the switch itself)')
+    t = rw.sub(t, r'== m_thread_data->my_task_dispatcher', '== self->m_thread_data->my_task_dispatcher', 0, None, name='field')
+    t = rw.asserts(t, 0)
+    t = rw.std(t)
+    t = cxx2c.tag_loops(t, 'colw', rw, expect=1)
+    out.append(t)
+    # task_dispatcher::resume(target)
+    s = slice_block(TK, r'bool task_dispatcher::resume\(task_dispatcher& target\)')
+    sliced.append('%s:%d task_dispatcher::resume' % (TK, s.line))
+    t = rw.sub(s.text, r'bool task_dispatcher::resume\(task_dispatcher& target\)', 'bool td_resume(struct task_dispatcher* self, struct task_dispatcher* target)', 1, 1, name='sig')
+    t = rw.sub(t, r'&target\b', 'target', 1, name='ref-param')
+    t = rw.sub(t, r'\btarget\.m_suspend_point', 'target->m_suspend_point', 1, name='ref-param')
+    t = rw.sub(t, r'thread_data\* td = m_thread_data;', 'struct thread_data* td = self->m_thread_data;', 2, 2, name='field')
+    t = rw.sub(t, r'td->detach_task_dispatcher\(\);', 'STUB_detach_task_dispatcher(td);', 0, None, name='callee stub')
+    t = rw.sub(t, r'td->attach_task_dispatcher\(target\);', 'STUB_attach_task_dispatcher(td, target);', 0, None, name='callee stub')
+    t = rw.sub(t, r'm_suspend_point->resume\(target->m_suspend_point\);', 'STUB_coroutine_switch(self, target);', 1, 1, name='callee stub (co_context switch: returns when somebody switches back to this stack)')
+    t = rw.sub(t, r'if \(m_thread_data\) \{', 'if (self->m_thread_data) {', 1, 1, name='field')
+    t = rw.sub(t, r'(?<![\w.>:])do_post_resume_action\(\);', 'td_do_post_resume_action(self);', 0, None, name='method')
+    t = rw.sub(t, r'arena_slot\* slot = td->my_arena_slot;', 'struct arena_slot* slot = td->my_arena_slot;', 1, 1, name='type')
+    t = rw.sub(t, r'\bthis\b', 'self', 0, None, name='this')
+    t = rw.sub(t, r'(?<![\w.>])m_suspend_point->m_is_owner_recalled\.store\(false, std::memory_order_relaxed\);', 'self->m_suspend_point->m_is_owner_recalled = false;', 0, None, name='atomic-store (owner-only flag at this point)')
+    t = rw.sub(t, r'(?<![\w.>])m_suspend_point\b', 'self->m_suspend_point', 0, None, name='field')
+    t = rw.asserts(t, 0)
+    t = rw.std(t)
+    out.append(t)
+    # recall_point
+    s = slice_block(TDH, r'inline void task_dispatcher::recall_point\(\)')
+    sliced.append('%s:%d task_dispatcher::recall_point' % (TDH, s.line))
+    t = rw.sub(s.text, r'inline void task_dispatcher::recall_point\(\)', 'void td_recall_point(struct task_dispatcher* self)', 1, 1, name='sig')
+    t = rw.sub(t, r'&m_thread_data->my_arena_slot->default_task_dispatcher\(\)', 'self->m_thread_data->my_arena_slot->my_default_task_dispatcher', 1, 1, name='accessor')
+    t = rw.sub(t, r'\bthis\b', 'self', 0, None, name='this')
+    t = rw.sub(t, r'm_suspend_point->m_is_owner_recalled\.load\(std::memory_order_relaxed\)', 'self->m_suspend_point->m_is_owner_recalled', 0, None, name='assert-read')
+    t = rw.sub(t, r'(?<![\w.>:])get_suspend_point\(\)', 'STUB_get_suspend_point(self)', 0, None, name='method')
+    t = rw.sub(t, r'm_thread_data->set_post_resume_action\(post_resume_action::(\w+), ([^;]*)\);', r'td_set_post_resume_action(self->m_thread_data, pra_\1, \2);', 0, None, name='method')
+    t = rw.sub(t, r'internal_suspend\(\);', 'STUB_internal_suspend(self);', 0, None, name='callee stub (leaves this stack; returns when it is resumed)')
+    t = rw.sub(t, r'm_thread_data->my_inbox\.is_idle_state\(true\)', 'STUB_inbox_is_idle(self)', 1, 1, name='callee stub')
+    t = rw.sub(t, r'm_thread_data->my_inbox\.set_is_idle\(false\);', 'STUB_inbox_set_idle_false(self);', 1, 1, name='callee stub')
+    t = rw.sub(t, r'(?<![\w.>])m_suspend_point\b', 'self->m_suspend_point', 0, None, name='field')
+    t = rw.asserts(t, 0)
+    t = rw.std(t)
+    out.append(t)
+    if not re.search(r'enum class post_resume_action \{\s*invalid,\s*register_waiter,\s*cleanup,\s*notify,\s*none\s*\}', load(SC)):
+        raise ExtractionBreak('post_resume_action enum changed')
+    common.write(ctx, 'switch.inc', '\n'.join(out) + '\n')
+    fired['stack_switch'] = rw.fired
+
+
 def build(ctx):
     sliced, fired = extract(ctx)
+    extract_switch(ctx, sliced, fired)
     C = os.path.join(HERE, 'c20.c')
     jobs = [
         Job('handshake.resumer', C, 'h_resumer', route='RG', target='r1::resume + suspend_point_type::try_notify_resume (the resumer side)', source=TK),
         Job('handshake.leaver', C, 'h_leaver', route='RG', target='suspend_point_type::finilize_resume (+ r1::resume when it finds the stack notified) (the leaver side)', source=SC),
         Job('handshake.recall_owner', C, 'h_recall', route='LF', target='suspend_point_type::recall_owner', source=SC),
+        Job('switch.do_post_resume_action', C, 'h_post_action', route='LF', defines=['SWITCH'], target='task_dispatcher::do_post_resume_action + thread_data::set/clear_post_resume_action', source=TK),
+        Job('switch.coroutine_prologue', C, 'h_prologue', route='LC', loops=True, nloops=1, defines=['SWITCH'], target='task_dispatcher::co_local_wait_for_all (prologue and re-use loop of a coroutine)', source=TDC),
+        Job('switch.resume', C, 'h_td_resume', route='LF', defines=['SWITCH'], target='task_dispatcher::resume(target) (the code on both sides of the stack switch)', source=TK),
+        Job('switch.recall_point', C, 'h_recall_point', route='LF', defines=['SWITCH'], target='task_dispatcher::recall_point', source=TDH),
     ]
     return {
         'jobs': jobs, 'sliced': sliced, 'fired': fired,
-        'trusted': ['task_stream::push, arena reference counting, advertise_new_work: stubs (push counted)', 'SC atomics', 'closed world: m_stack_state is written only by the sliced functions and co_context construction'],
+        'trusted': ['task_stream::push, arena reference counting, advertise_new_work: stubs (push counted)', 'co_context switch, local_wait_for_all, detach/attach_task_dispatcher, co_cache, waiting-threads monitor: stubs with effect counters', 'SC atomics', 'closed world: m_stack_state is written only by the sliced functions and co_context construction'],
         'drops': ['debug pointer checks', 'local reference aliases', 'enum class -> plain enum'],
-        'not_decided': ['the coroutine switch itself', 'post-resume actions other than the hand-shake', 'owner recall wake-up (liveness)', 'the arena reference held per coroutine', 'the enclosing wait not completing early (C01)'],
+        'not_decided': ['the coroutine switch itself', 'internal_suspend target choice / create_coroutine / resume_task::execute', 'owner recall wake-up reaching the sleeper (liveness)', 'the enclosing wait not completing early (C01)'],
         'assumptions': ['resume is called once for the suspend point (the property\'s own precondition)'],
     }
 
